@@ -445,7 +445,7 @@ def check_C20(tier, t0):
     from . import setup_check
 
     seed = core.verif_seed()
-    n = scale(4000 if tier == "quick" else 300000)
+    n = scale(8000 if tier == "quick" else 300000)
     bud = budget(240 if tier == "quick" else 2400)
     found = setup_check.interpreters()
     missing = [v for v in setup_check.INTERPRETERS if v not in dict(found)]
